@@ -74,7 +74,7 @@ class Indexing(AH.ArrayHistory):
     prop = 'C12'
     oracles = ('leak', 'hold')
     weights = dict(get=40, set=22, append=5, truncate=5, reopen=3, mode=0, iterappend=0, setitem=0,
-                   append_bad=0, truncate_bad=0, meta=0, recreate=0, ctx=8, delete_end=0)
+                   append_bad=0, truncate_bad=0, meta=0, recreate=0, ctx=8, delete_end=0, iterbreak=4)
     batch = 30
     big_p = 0.06
 
@@ -171,7 +171,7 @@ class _IState(AH._State):
             self.check_hold(k)
             self.check_leak(k)
             return
-        if k in ('append', 'truncate', 'reopen', 'iterappend') and self.ctx:
+        if k in ('append', 'truncate', 'reopen', 'iterappend', 'iterbreak') and self.ctx:
             # structural ops are performed outside contexts
             self.close_ctx()
         super().step(op)
